@@ -34,6 +34,8 @@ def run(ctx):
         r6(ctx, facts, cfg)
         r7(ctx, facts, cfg)
         transit_event_transfer(ctx, facts, cfg, "C03.R4")
+        union_discriminant(ctx, facts, cfg)
+        buffered_iff_true(ctx, facts, cfg)
         from rules import c02
         from rules.c09 import Renamed
         bn = {m.base: m for m in facts.fns if m.config == cfg and m.cls == c02.CLS and not m.rec.get("ctor") and not m.rec.get("dtor")}
@@ -487,3 +489,44 @@ def transit_event_transfer(ctx, facts, cfg, rule):
     mv = [c for c in ex.calls(r"TransitEvent::operator=$")]
     ctx.ob(rule + "t", "TransitEventBuffer::_expand:moves-events", bool(mv),
            "growing the per-thread buffer carries the buffered events over with TransitEvent's move assignment", fn=ex)
+
+
+def union_discriminant(ctx, facts, cfg):
+    """every access to one arm of the queue union lies on the matching outcome of the context's queue-type test"""
+    n = 0
+    for f in facts.fns:
+        if f.config != cfg or not (f.short.startswith(BW) or (f.rec.get("parent") or "").startswith("quill::detail::BackendWorker::")):
+            continue
+        acc = {"unbounded_spsc_queue": [], "bounded_spsc_queue": []}
+        for x in f.walk():
+            if x["k"] == "MemberExpr" and x.get("mname") in acc and any(is_call(y, r"ThreadContext::get_spsc_queue_union$") for y in walk(x.get("base"))):
+                acc[x["mname"]].extend(f.g.positions(x) or [])
+        if not acc["unbounded_spsc_queue"] and not acc["bounded_spsc_queue"]:
+            continue
+        g = f.g
+        ub = [(b, t) for (b, t, c) in branches_on_call(f, r"ThreadContext::has_unbounded_queue_type$")]
+        bb = [(b, t) for (b, t, c) in branches_on_call(f, r"ThreadContext::has_bounded_queue_type$")]
+        n += 1
+        ok_u = not acc["unbounded_spsc_queue"] or (bool(ub) and not g.exists_path([g.entry_node], acc["unbounded_spsc_queue"], avoid_edges=ub))
+        # the bounded arm: on 'is bounded', or on 'is not unbounded' (two queue kinds)
+        ok_b = not acc["bounded_spsc_queue"] or (bool(bb + ub) and not g.exists_path([g.entry_node], acc["bounded_spsc_queue"], avoid_edges=bb + [(b, other(t)) for (b, t) in ub]))
+        ctx.ob("C03.R7u", "%s:queue-union-arm" % short(f.name).replace("quill::detail::", "")[:110], ok_u and ok_b,
+               "the unbounded arm of the thread context's queue union is touched only on the 'has an unbounded queue' outcome and the "
+               "bounded arm only on 'has a bounded queue' / 'not unbounded' (unbounded ok: %s, bounded ok: %s)" % (ok_u, ok_b), fn=f)
+    ctx.floor("C03.R7u", "backend functions that touch the queue union", n, 4)
+
+
+def buffered_iff_true(ctx, facts, cfg):
+    """the decoder's verdict is what the read loop consumes bytes on: true exactly when the event was buffered"""
+    f = facts.need(BW + "_populate_transit_event_from_frontend_queue", cfg)[0]
+    g = f.g
+    pb = npos(f, f.calls(r"TransitEventBuffer::push_back$"))
+    trues, falses = returns_bool(f, True), returns_bool(f, False)
+    if not pb or not trues or len(trues) + len(falses) != len(g.return_nodes()):
+        raise AnalysisBroken("_populate_transit_event_from_frontend_queue: push_back / literal returns not found")
+    cnt = g.count_on_paths([g.entry_node], trues + falses, pb)
+    ok = all(cnt[t] == (1, 1) for t in trues) and all(cnt[x] == (0, 0) for x in falses)
+    ctx.ob("C03.R1p", "_populate_transit_event_from_frontend_queue:true-iff-buffered", ok,
+           "the function returns true on exactly the paths that buffered one event (push_back once) and false on exactly those that "
+           "buffered none: the caller consumes the record's bytes on 'true' and leaves them on 'false', so 'true' without an event "
+           "loses a statement and 'false' with one delivers it twice", fn=f)
